@@ -73,6 +73,10 @@ func (e *Engine) harnessCall(st *State, th *Thread, fn *ssa.Function, args []Val
 		id := args[1].(StrV).S
 		e.assert(st, args[0].(BoolV).T, id, fn, true)
 		return nil, true
+	case "verifAssertHard":
+		id := args[1].(StrV).S
+		e.assertHard(st, args[0].(BoolV).T, id, fn)
+		return nil, true
 	case "verifReach":
 		if st.reached == nil {
 			st.reached = map[string]bool{}
@@ -195,32 +199,63 @@ func (e *Engine) assert(st *State, cond *Term, id string, fn *ssa.Function, cut 
 		g, extra := e.generalise(cond)
 		if extra != nil {
 			pc := append(append([]*Term{}, st.pc...), extra...)
-			r, _ := e.sol.Check(pc, tb.Not(g), nil)
+			r := e.sol.CheckFresh(pc, tb.Not(g))
 			if r == "unsat" {
 				e.disch++
-				st.addPC(cond)
 				return
 			}
 		}
 	}
-	r := e.sat(st, viol)
+	var r string
+	if cut {
+		r = e.sol.CheckFresh(st.pc, viol)
+	} else {
+		r = e.sat(st, viol)
+	}
 	if r == "unknown" {
 		r = e.hardQuery(st, viol)
 	}
 	switch r {
 	case "unsat":
 		e.disch++
-		st.addPC(cond)
+		if !cut {
+			st.addPC(cond)
+		}
 		return
 	case "sat":
 		e.report(st, "assert", caller, id, fn.Pos(), viol, "sat")
 	default:
 		e.inconc = append(e.inconc, fmt.Sprintf("%s: assertion %s undecided (solver unknown)", e.harness, id))
 	}
+	if cut {
+		return // arithmetic-heavy assertions are not added to the path condition
+	}
 	if e.sat(st, cond) == "unsat" {
 		panic(pathDead{"assert"})
 	}
 	st.addPC(cond)
+}
+
+// assertHard: arithmetic-heavy assertion sent straight to the one-shot portfolio.
+func (e *Engine) assertHard(st *State, cond *Term, id string, fn *ssa.Function) {
+	e.oblig++
+	if cond.IsTrue() {
+		e.disch++
+		return
+	}
+	viol := e.tb.Not(cond)
+	caller := "harness"
+	if th := st.threads[st.cur]; len(th.frames) > 0 {
+		caller = th.top().fn.String()
+	}
+	switch e.hardQuery(st, viol) {
+	case "unsat":
+		e.disch++
+	case "sat":
+		e.report(st, "assert", caller, id, fn.Pos(), viol, "sat")
+	default:
+		e.inconc = append(e.inconc, fmt.Sprintf("%s: assertion %s undecided (portfolio timeout)", e.harness, id))
+	}
 }
 
 // hardQuery: one-shot portfolio (z3, z3-new, cvc5 on bit-vectors, z3 on the integer rendering).
